@@ -5,6 +5,8 @@ CONSTANTS
   MaxT = 2
   Variant = "swap_ghost"
   Dense = TRUE
+  Basis = "origin"
+  Singles = "none"
 INVARIANT TypeOK
 INVARIANT TileInv
 CHECK_DEADLOCK FALSE
